@@ -323,7 +323,8 @@ def run_models(ctx_name, cases, filecases):
         models.append(dict(
             full=dec_opt(full, dec_list),
             rows=dec_opt(rows, lambda x: [dec_list(y) for y in x]),
-            slices=dec_opt(sl, lambda x: [(qv(s[0]), dec_list(s[1])) for s in x]),
+            # ((num, den), coeffs) is printed by Coq as the flat triple (num, den, coeffs)
+            slices=dec_opt(sl, lambda x: [(qv((s[0], s[1])), dec_list(s[2])) for s in x]),
             okb=okb,
             rows_v0=dec_opt(rows0, lambda x: [dec_list(y) for y in x])))
     fres = []
@@ -355,7 +356,8 @@ def oracle_case(inp, impl=None, proc=None, mats=None, solver=False, files=True):
         impl, proc, mats = run_impl(inp)
     kind = inp.get("kind", "step")
     if kind == "cubic":
-        return oracle_cubic(inp, impl, fail)
+        oracle_cubic(inp, impl, fail)
+        return fails
     if not in_theorem_domain(inp):
         return fails
     grid = sorted(set(all_points(inp)))
@@ -523,15 +525,14 @@ def oracle_files(inp, impl, got_tot):
 
 def oracle_cubic(inp, impl, fail):
     """a spline coefficient interpolates its samples (and is zero outside its own grid)"""
-    fails = []
     if impl["full"] is None or impl["rows"] is None:
         fail("valid cubic input rejected", impl["err"], "merged grid and coefficients")
-        return fails
+        return
     grid = sorted(set(all_points(inp)))
     if impl["full"] != grid:
         fail("merged grid is not the sorted set of all grid points", [str(x) for x in impl["full"]],
              [str(x) for x in grid])
-        return fails
+        return
     for m, ch in enumerate(inp["channels"]):
         tl = [fr(x) for x in ch["tlist"]]
         cf = [fr(x) for x in ch["coeff"]]
@@ -546,8 +547,7 @@ def oracle_cubic(inp, impl, fail):
             if abs(float(row[n]) - float(e)) > 1e-9:
                 fail("cubic coefficient does not interpolate its samples", dict(channel=m, t=str(t), value=float(row[n])),
                      dict(value=float(e)))
-                return fails
-    return fails
+                return
 
 
 # ------------------------------------------------------------------------------------------------
